@@ -634,3 +634,82 @@ def lemma_L3(prog, res):
         res.add("C08.open_reads_at_most_5_ranges", "holds" if len(reads) <= 6 else "violated", f"{len(reads)} reads")
     res.add("C08.no_panic(open_stream)", "holds" if not any(o["name"] == "C08.no_panic(open_stream)" and o["status"] == "violated" for o in res.obligations) else "violated",
             f"{len(sp) + len(fp)} paths")
+
+
+# ---------------------------------------------------------------------------------------------------------
+# L5: minimal_parse locates the header tables exactly as the gABI rules say (absolute oracle, no size bound)
+
+
+def lemma_L5(prog, res):
+    try:
+        bp, bsol, bst = run_minimal_parse(prog, tag="m5")
+    except sym.Unsupported as u:
+        res.add("L5.encode(minimal_parse)", "inconclusive", str(u))
+        return
+    res.stats["queries"] += bst["queries"]
+    res.stats["paths"] += bst["paths"]
+    solver = new_solver()
+    fl = z3.BitVec("file_len", 64)
+    n_ok = n_err = 0
+    for p in bp:
+        if p["status"] != "ok":
+            res.add("C01.no_panic(minimal_parse, engine B)", "violated", p["status"])
+            continue
+        tails = [ev for ev in p["events"] if ev[0] == "parse_tail"]
+        if not tails:
+            continue          # rejected before a file header exists (ident / short file): C10's business
+        v = p["value"]
+        # recover the header terms: class from the ident event path; fields are uninterpreted functions of position 16
+        fp = tails[0][1]
+        for ci, cname in ((0, "32"), (1, "64")):
+            pass
+        # which class did this path take? read it from the parse_tail result stored in the Ok value, or re-derive from pc
+        cls = None
+        if is_ok(v):
+            cls = v.f[0].f[0].f[0].variant
+            ehdr = v.f[0].f[0]
+        else:
+            ehdr = p["env"].get("last_ehdr")
+            cls = ehdr.f[0].variant if ehdr is not None else None
+        if cls is None:
+            res.add("L5.header_terms", "inconclusive", "could not recover the file header of an Err path")
+            continue
+        is32 = cls == "ELF32"
+        shes, phes = (40, 32) if is32 else (64, 56)
+        e_phoff, e_shoff = ehdr.f[8].e, ehdr.f[9].e
+        e_phentsize, e_phnum, e_shentsize, e_shnum = ehdr.f[12].e, ehdr.f[13].e, ehdr.f[14].e, ehdr.f[15].e
+        suffix = "32" if is32 else "64"
+        sh0_size = model.F(f"SectionHeader.sh_size@{suffix}", model.BV64, z3.BitVecSort(64))(e_shoff)
+        sh0_info = model.F(f"SectionHeader.sh_info@{suffix}", model.BV64, z3.BitVecSort(32))(e_shoff)
+        z16 = lambda x: z3.ZeroExt(48, x)
+        shnum = z3.If(e_shnum == 0, sh0_size, z16(e_shnum))
+        phnum = z3.If(e_phnum == 0xffff, z3.ZeroExt(32, sh0_info), z16(e_phnum))
+
+        def fits(off, n, es):
+            # n*es does not overflow iff n <= (2^64-1)/es (es is the class's constant structure size)
+            return z3.And(z3.ULE(n, bv(((1 << 64) - 1) // es)), z3.BVAddNoOverflow(off, n * bv(es), False), z3.ULE(off + n * bv(es), fl))
+        shdr0_fits = fits(e_shoff, bv(1), shes)
+        sh_ok = z3.Or(e_shoff == 0, z3.And(z3.Or(e_shnum != 0, shdr0_fits), z16(e_shentsize) == shes, fits(e_shoff, shnum, shes)))
+        ph_ok = z3.Or(e_phoff == 0, z3.And(z3.Or(e_phnum != 0xffff, shdr0_fits), z16(e_phentsize) == phes, fits(e_phoff, phnum, phes)))
+        scope = z3.Or(e_phnum != 0xffff, e_shoff != 0, e_phoff == 0)   # PN_XNUM presupposes a section table (property text)
+        pc = p["pc"] + [scope]
+        if is_ok(v):
+            n_ok += 1
+            okv, mdl = valid(res, solver, pc, z3.And(sh_ok, ph_ok))
+            res.add("C05.open_ok_implies_tables_fit_with_right_entsize", "holds" if okv else "violated", model_str(mdl, 24), mdl)
+            eb = v.f[0]
+            for (nm, idx, off, n, es) in (("section", 2, e_shoff, shnum, shes), ("program", 3, e_phoff, phnum, phes)):
+                present, sl = table_of_bytes(eb.f[idx])
+                if present:
+                    okv, mdl = valid(res, solver, pc, z3.And(off != 0, sl.file_pos() == off, sl.len == n * es))
+                    res.add(f"C05.{nm}_table_is_[off, off+n*entsize)", "holds" if okv else "violated",
+                            "" if okv else f"table slice {sl!r}: {model_str(mdl, 24)}", mdl)
+                else:
+                    okv, mdl = valid(res, solver, pc, off == 0)
+                    res.add(f"C05.{nm}_table_absent_iff_offset_zero", "holds" if okv else "violated", model_str(mdl, 24), mdl)
+        else:
+            n_err += 1
+            okv, mdl = valid(res, solver, pc, z3.Not(z3.And(sh_ok, ph_ok)))
+            res.add("C05.open_err_implies_a_table_is_malformed", "holds" if okv else "violated",
+                    "" if okv else f"minimal_parse fails although both tables are well-formed: {model_str(mdl, 24)}", mdl)
+    res.add("L5.witness.ok_and_err_paths", "holds" if n_ok >= 4 and n_err >= 4 else "inconclusive", f"ok={n_ok} err={n_err}")
